@@ -49,6 +49,7 @@ func c06(c *Ctx) {
 	c.singleIDHeader("R06.7")
 	defer c06exactNoChangeTests(c)
 	defer c06updatesConserved(c)
+	defer c06updatesInWriteOrder(c)
 	P, R := c.P, c.R
 	R.Explain("R06.8", "a remove followed by a re-add reaches the session in that order: in State.popResponders every path of the *expunge edge (permitExpunge=false) records the message id in the skip set, whatever the snapshot holds, so the EXISTS of the re-add waits behind the held-back EXPUNGE; released early it is applied first and the later EXPUNGE then removes the message the connector re-added (shared with R05.2).")
 	if pop := c.fn("R06.8", "internal/state.(*State).popResponders"); pop != nil {
@@ -895,4 +896,54 @@ func c06updatesConserved(c *Ctx) {
 		}
 	}
 	R.Min("R06.10", "update-returning calls below user.apply", n, 8)
+}
+
+// c06updatesInWriteOrder (R06.11): the sessions hear about the parts of a change in the order in which they were written.
+func c06updatesInWriteOrder(c *Ctx) {
+	P, R := c.P, c.R
+	R.Explain("R06.11", "announcements follow the writes: where the functions below user.apply concatenate the state updates of two calls (`append(a, b...)`, a from call X, b from call Y), X is executed before Y.  The updates carry data read at the time of their write (an EXISTS carries the flags the message had when it was added); replaying them in another order than the writes lets an earlier snapshot of the data overwrite a later change in the sessions that are told (a flag change announced before the EXISTS that still carries the old flags).")
+	apply := c.fn("R06.11", "internal/backend.(*user).apply")
+	if apply == nil {
+		return
+	}
+	srcCalls := func(v ssa.Value) []*ssa.Call {
+		var found []*ssa.Call
+		engine.Backward(v, engine.FlowOpts{AppendBase: true, AppendElems: true}, func(x ssa.Value) bool {
+			if ex, ok := x.(*ssa.Extract); ok {
+				if call, ok := ex.Tuple.(*ssa.Call); ok && isUpdateType(ex.Type()) {
+					if _, isBuiltin := call.Call.Value.(*ssa.Builtin); !isBuiltin {
+						found = append(found, call)
+					}
+				}
+				return false
+			}
+			return true
+		})
+		return found
+	}
+	n := 0
+	for _, f := range c.withPackageHelpers(apply, "internal/backend", 3) {
+		for _, cs := range engine.Calls(f) {
+			v, isVal := cs.Instr.(ssa.Value)
+			if !isVal {
+				continue
+			}
+			app, ok := engine.IsBuiltinCall(v, "append")
+			if !ok || len(app.Call.Args) != 2 || !isUpdateType(app.Type()) {
+				continue
+			}
+			for _, x := range srcCalls(app.Call.Args[0]) {
+				for _, y := range srcCalls(app.Call.Args[1]) {
+					if x == y || x.Block() == nil || y.Block() == nil {
+						continue
+					}
+					// loop-carried accumulation: the same call site feeds both sides in different iterations
+					n++
+					okOrder := engine.InstrDominates(x, y) || (engine.InstrReaches(x, y) && !engine.InstrReaches(y, x))
+					R.Check(okOrder, "R06.11", c.name(f)+"|append order "+calleeLabel(x)+" then "+calleeLabel(y), P.Pos(app.Pos()), "the updates are concatenated in the order of their writes", "the state updates of "+calleeLabel(y)+" (written first) are announced after those of "+calleeLabel(x)+" (written later): sessions apply them in the wrong order")
+				}
+			}
+		}
+	}
+	R.Stats["R06.11 concatenations of two calls' updates"] = n
 }
